@@ -770,6 +770,9 @@ def in_ranges(z, ranges):
                 E.n_static += 1
                 return z3.BoolVal(True)
     if len(ranges) > 8:
+        if any(ranges[i][1] >= ranges[i + 1][0] for i in range(len(ranges) - 1)):
+            ranges = sorted(ranges)
+            assert all(ranges[i][1] < ranges[i + 1][0] for i in range(len(ranges) - 1)), "overlapping ranges"
         return _range_tree(z, ranges, 0, len(ranges))
     alts = [z == bv(a) if a == b else z3.And(z >= bv(a), z <= bv(b)) for a, b in ranges]
     return alts[0] if len(alts) == 1 else z3.Or(alts)
